@@ -179,6 +179,10 @@ Proof.
   - apply orb_false_elim in H as [H1 H2]. rewrite H1, IH; auto.
 Qed.
 
+(* slice::iter().position(|x| x == c) *)
+Fixpoint position (c : N) (s : str) : option nat :=
+  match s with [] => None | x :: r => if x =? c then Some 0%nat else option_map S (position c r) end.
+
 (* the run of leading ASCII digits and the rest *)
 Fixpoint span_digits (s : str) : str * str :=
   match s with
